@@ -27,7 +27,8 @@ ASSUMPTIONS = [
     'month-based bumps (m/q/y) are checked from midnight only: with a time of day they reset it (statement: claimed at midnight only); '
     'compound tenors in which an m/q/y part meets a non-midnight intermediate time are skipped (outcome class compound-skipped-tod)',
     'dt(bump) / dt_bump relative to today is excluded (depends on the run date); every start time is an explicit datetime',
-    'relativedelta bumps, time-zone bumps, NaT and timeseries operands are excluded; tz-aware start times only for business-day and fixed-length tenors (suite '
+    'relativedelta bumps, time-zone bumps and NaT are excluded; of a timeseries start only the SET of timestamps of the result is compared with the bumped index entries (suite '
+    'compound_intraday; how rows landing on one timestamp are aggregated is not part of the statement); tz-aware start times only for business-day and fixed-length tenors (suite '
     'compound_intraday): the count runs on the local date, the time of day and the zone are kept (m/q/y drop the zone like they drop the time of day)',
     "n = 0: '0b' from a weekday is taken to return t (it follows from the composition clause with a = 0) and from a weekend day the "
     'following Monday (the roll-forward clause); negative n from a weekend day count back from that Monday (the roll-forward clause)',
@@ -561,6 +562,25 @@ def check_compound_intraday(case):
                     continue
                 if not isinstance(r, datetime.datetime) or r != e:
                     rec('compound-wrong', 'dt_bump(%r, %r): expected the datetime %s observed %r' % (ts, s0, e, r), unit='start-spelling', via=sname, parts=[u for u, _ in parts])
+    # ---- a timeseries start (documented: its index is bumped element by element, rows landing on one timestamp are aggregated): the set of timestamps of the
+    #      result is the set of the bumped index entries
+    idx = [DAYS[i0 + j] for j in range(min(L, 11))]
+    ser = pd.Series([float(j) for j in range(len(idx))], index=pd.DatetimeIndex(idx))
+    for parts in DATE_TENORS + [[('b', 1), ('d', 1)], [('b', -1), ('h', -1)], [('m', 1), ('w', 1)]]:
+        es = [fold(t_, parts) for t_ in idx]
+        if any(e_ is None for e_ in es):
+            continue
+        s0 = ''.join(spell(u, n) for u, n in parts)
+        nsub += 1
+        try:
+            rs = dt_bump(ser, s0)
+            ncall += 1
+            got_idx = [pd.Timestamp(x).to_pydatetime() for x in rs.index]
+            if sorted(set(got_idx)) != sorted(set(es)) or len(got_idx) != len(set(es)):
+                rec('compound-wrong', 'dt_bump(series over %s .. %s, %r): index %s, expected the bumped entries %s' % (idx[0].date(), idx[-1].date(), s0, [str(x)[:16] for x in got_idx],
+                                                                                                                 [str(x)[:16] for x in sorted(set(es))]), unit='timeseries', via='dt_bump', parts=[u for u, _ in parts])
+        except Exception as ex:
+            rec('raised', 'dt_bump(series, %r) raised %s: %s' % (s0, type(ex).__name__, ex), unit='timeseries', via='dt_bump')
     out.call(ncall)
     out.sub(nsub)
     out.states += L - 1
